@@ -41,7 +41,9 @@ MANIFEST = {
                      "signatures), on the real VerifySignatures of /repo/node and of the node version the explorer links (+ the explorer's "
                      "gate driven through the exported Push path), incl. index orders across 127/128/255, non-adjacent repeated addresses and "
                      "two-step histories (verify, change a body field of the same value, verify again); TLC computes the single expected verdict "
-                     "(Verify and no guardian counted twice) for every recorded evaluation from its abstract [idx, signer] description.",
+                     "(Verify and no guardian counted twice) for every recorded evaluation from its abstract [idx, signer] description. The two "
+                     "verification sites of observation.go (single gossiped signature, inbound signed VAA) are driven with the same corruption "
+                     "classes on the real processor and validated by TLC against Processor.tla.",
                 ref="6/C06", note=NOTE, technique="TLA+ model checking (TLC) of the verification lemmas + model-based testing / trace validation of "
                                                   "the real VerifySignatures (node and explorer link)"),
     "C07": dict(text="Quorum.tla: Q(n) = floor(2n/3)+1, the three BFT lemmas and minimality for n = 1..255 (thorough: ..20000), agreement with the "
@@ -545,6 +547,10 @@ def run(prop, tier, replay=None):
                 for sig, det in ds:
                     verdict.add(sig, det)
         print("contract extraction: %s" % json.dumps(contract))
+    if prop == "C06" and not replay:
+        # 6. the two verification sites of observation.go (anchored there too), decided by Trace_Processor
+        import chk_processor
+        extra_cov["node_use_sites"] = chk_processor.verify_use_sites(work, tier, int(vlib.seed()), verdict)
     if prop == "C07" and not replay:
         # 6. the threshold at its use sites in the node ("a VAA the node considers complete ... and an incomplete one is
         #    not"): inbound signed VAAs and the node's own publication decision, set sizes 1..19, decided by
